@@ -49,7 +49,44 @@ Definition more_obligations : list (string * (schema * ty)) := [
   ("tlb.BlockLimits", (s_BlockLimits, d_tlb_BlockLimits)); ("tlb.BlockCreateFees", (s_BlockCreateFees, d_tlb_BlockCreateFees));
   ("tlb.ComplaintPricing", (s_ComplaintPricing, d_tlb_ComplaintPricing)); ("tlb.WorkchainFormat1", (s_WorkchainFormat1, d_tlb_WorkchainFormat1));
   ("tlb.WorkchainFormat0", (s_WorkchainFormat0, d_tlb_WorkchainFormat0)); ("tlb.WcSplitMergeTimings", (s_WcSplitMergeTimings, d_tlb_WcSplitMergeTimings));
-  ("tlb.PrecompiledSmc", (s_PrecompiledSmc, d_tlb_PrecompiledSmc)); ("tlb.CatchainConfig", (s_CatchainConfig, d_tlb_CatchainConfig))].
+  ("tlb.PrecompiledSmc", (s_PrecompiledSmc, d_tlb_PrecompiledSmc)); ("tlb.CatchainConfig", (s_CatchainConfig, d_tlb_CatchainConfig));
+  (* configuration parameters, block_info *)
+  ("tlb.ConfigParam0", (s_ConfigParamAddr, d_tlb_ConfigParam0));
+  ("tlb.ConfigParam1", (s_ConfigParamAddr, d_tlb_ConfigParam1));
+  ("tlb.ConfigParam2", (s_ConfigParamAddr, d_tlb_ConfigParam2));
+  ("tlb.ConfigParam3", (s_ConfigParamAddr, d_tlb_ConfigParam3));
+  ("tlb.ConfigParam4", (s_ConfigParamAddr, d_tlb_ConfigParam4));
+  ("tlb.BurningConfig", (s_BurningConfig, d_tlb_BurningConfig));
+  ("tlb.ConfigParam5", (s_ConfigParam5, d_tlb_ConfigParam5));
+  ("tlb.ConfigParam6", (s_ConfigParam6, d_tlb_ConfigParam6));
+  ("tlb.ConfigParam7", (s_ConfigParam7, d_tlb_ConfigParam7));
+  ("tlb.ConfigParam8", (s_ConfigParam8, d_tlb_ConfigParam8));
+  ("tlb.ConfigProposalSetup", (s_ConfigProposalSetup, d_tlb_ConfigProposalSetup));
+  ("tlb.ConfigVotingSetup", (s_ConfigVotingSetup, d_tlb_ConfigVotingSetup));
+  ("tlb.ConfigParam11", (s_ConfigParam11, d_tlb_ConfigParam11));
+  ("tlb.ConfigProposal", (s_ConfigProposal, d_tlb_ConfigProposal));
+  ("tlb.ConfigParam13", (s_ConfigParam13, d_tlb_ConfigParam13));
+  ("tlb.ConfigParam14", (s_ConfigParam14, d_tlb_ConfigParam14));
+  ("tlb.ConfigParam15", (s_ConfigParam15, d_tlb_ConfigParam15));
+  ("tlb.ConfigParam16", (s_ConfigParam16, d_tlb_ConfigParam16));
+  ("tlb.ConfigParam17", (s_ConfigParam17, d_tlb_ConfigParam17));
+  ("tlb.ConfigParam22", (s_ConfigParamBlockLimits, d_tlb_ConfigParam22));
+  ("tlb.ConfigParam23", (s_ConfigParamBlockLimits, d_tlb_ConfigParam23));
+  ("tlb.ConfigParam24", (s_ConfigParamFwdPrices, d_tlb_ConfigParam24));
+  ("tlb.ConfigParam25", (s_ConfigParamFwdPrices, d_tlb_ConfigParam25));
+  ("tlb.ConfigParam28", (s_ConfigParam28, d_tlb_ConfigParam28));
+  ("tlb.ConsensusConfig", (s_ConsensusConfig, d_tlb_ConsensusConfig));
+  ("tlb.ConfigParam29", (s_ConfigParam29, d_tlb_ConfigParam29));
+  ("tlb.MisbehaviourPunishmentConfig", (s_MisbehaviourPunishmentConfig, d_tlb_MisbehaviourPunishmentConfig));
+  ("tlb.ConfigParam40", (s_ConfigParam40, d_tlb_ConfigParam40));
+  ("tlb.SizeLimitsConfig", (s_SizeLimitsConfig, d_tlb_SizeLimitsConfig));
+  ("tlb.ConfigParam43", (s_ConfigParam43, d_tlb_ConfigParam43));
+  ("tlb.JettonBridgePrices", (s_JettonBridgePrices, d_tlb_JettonBridgePrices));
+  ("tlb.OracleBridgeParams", (s_OracleBridgeParams, d_tlb_OracleBridgeParams));
+  ("tlb.PrecompiledContractsConfig", (s_PrecompiledContractsConfig, d_tlb_PrecompiledContractsConfig));
+  ("tlb.SuspendedAddressList", (s_SuspendedAddressList, d_tlb_SuspendedAddressList));
+  ("tlb.AccountDispatchQueue", (s_AccountDispatchQueue, d_tlb_AccountDispatchQueue));
+  ("tlb.BlockInfoPart", (s_BlockInfoPart, d_tlb_BlockInfoPart))].
 
 Theorem C04_gen_more_types_refine_block_tlb :
   forallb (fun p => ok (fst (snd p)) (snd (snd p))) more_obligations = true.
@@ -73,7 +110,7 @@ Definition without_obligation : list string :=
   map fst (filter (fun p => in_tlb_package (fst p) && is_compound (snd p)
                             && negb (existsb (String.eqb (fst p)) with_obligation)) tlb_types).
 
-Theorem C04_gen_unpinned_types_bounded : Nat.leb (List.length without_obligation) 70 = true.
+Theorem C04_gen_unpinned_types_bounded : Nat.leb (List.length without_obligation) 34 = true.
 Proof. vm_compute. reflexivity. Qed.
 
 Eval vm_compute in ("tlb struct/union types with a descriptor but no block.tlb obligation yet", without_obligation).
